@@ -480,6 +480,13 @@ class FnTir:
                 g = {"text": pat_text(arm["pat"]) + ((" if " + text(arm["guard"])) if arm.get("guard") is not None else ""),
                      "pat": arm["pat"], "scrut": e["scrut"], "arm_guard": arm.get("guard"), "sp": arm.get("sp")}
                 b = arm["body"]
+                pb = H.peel(b)
+                while isinstance(pb, dict) and pb.get("k") == "block" and not pb.get("stmts") and pb.get("expr") is not None:
+                    pb = H.peel(pb["expr"])
+                if isinstance(pb, dict) and pb.get("k") in ("ret", "break", "continue"):
+                    # `let x = match y { .. , V => return };`: control left the function where the value was computed (the
+                    # effect tree has that exit); where the value is *used* this arm cannot have been taken
+                    continue
                 if any(True for p in [b] if H.diverges(H.peel(b))) or self.is_diverging(b):
                     alts.append((g, ("diverge", text(H.peel(b)))))
                 else:
